@@ -26,6 +26,13 @@ impl<'a> Iterator for Ipv6ExtensionSliceIter<'a> {
         use ip_number::*;
         use Ipv6ExtensionSlice::*;
 
+        // A lax parsed extensions slice only contains the headers in front
+        // of the first error. In that case the last header still refers to
+        // a next extension header, but no (validated) data is left.
+        if self.rest.is_empty() {
+            return None;
+        }
+
         match self.next_header {
             // Note on the unsafe calls:
             //
